@@ -71,6 +71,10 @@ func installAtomicStubs(t *StubTable) {
 
 // strings.Builder avoids copies through unsafe; model the three unsafe spots.
 func installStringsStubs(t *StubTable) {
+	// wall-clock reads: an arbitrary fixed instant (no property here depends on time)
+	t.Native["time.Now"] = func(i *interpreter, caller *frame, fn *ssa.Function, args []value) value {
+		return zero(fn.Signature.Results().At(0).Type())
+	}
 	t.Native["(*strings.Builder).copyCheck"] = func(i *interpreter, caller *frame, fn *ssa.Function, args []value) value { return nil }
 	t.Native["(*strings.Builder).Grow"] = func(i *interpreter, caller *frame, fn *ssa.Function, args []value) value { return nil }
 	t.Native["(*strings.Builder).grow"] = func(i *interpreter, caller *frame, fn *ssa.Function, args []value) value { return nil }
